@@ -89,6 +89,13 @@ SCHED_BINS_THOROUGH = [f"schedsim-{i:02d}" for i in range(16, 32)]
 SCHED_BINS_STAGED = [f"schedsim-{i:02d}" for i in range(32, 38)]
 
 
+# Both tiers of C07 / C08 / C12: tasks without component views (resource-only, entry-views-only, identifier-only,
+# empty) next to ordinary ones (schedsim-38, -39), and a task viewing a component immutably through views and entry
+# views next to a writer of that component (schedsim-40, -41).
+SCHED_BINS_EXTRA = [f"schedsim-{i:02d}" for i in range(38, 42)]
+SCHED_BINS_STAGED = SCHED_BINS_STAGED + SCHED_BINS_EXTRA
+
+
 def e2(profile, quick_per_bin, thorough_per_bin):
     def jobs(n, bins):
         return [{"binary": b, "package": b, "profile": profile, "runs": n, "chunks_per_job": 1} for b in bins]
@@ -110,7 +117,7 @@ PLAN["C09"] = {
 PLAN["C09"]["thorough"] = PLAN["C09"]["thorough"] + [{"binary": "miri:parsim", "package": "parsim", "profile": "C09", "runs": 152, "chunks_per_job": 1, "chunk_runs": 6}]
 # C15 also covers resource views of systems: the schedule simulator compares them with sequential execution.
 for _t, _n in (("quick", 2500), ("thorough", 40000)):
-    PLAN["C15"][_t] = PLAN["C15"][_t] + [{"binary": b, "package": b, "profile": "C15", "runs": _n, "chunks_per_job": 1} for b in SCHED_BINS]
+    PLAN["C15"][_t] = PLAN["C15"][_t] + [{"binary": b, "package": b, "profile": "C15", "runs": _n, "chunks_per_job": 1} for b in SCHED_BINS + SCHED_BINS_EXTRA[:2]]
 # C17 also injects panics into system bodies and parallel items.
 for _t, _n_s, _n_p in (("quick", 1500, 30000), ("thorough", 30000, 600000)):
     PLAN["C17"][_t] = PLAN["C17"][_t] + [{"binary": b, "package": b, "profile": "C17", "runs": _n_s, "chunks_per_job": 1} for b in SCHED_BINS] \
@@ -122,7 +129,7 @@ STUB_E2 = ["rayon-core join / join_context / current_num_threads (vendored copy 
 ASSUME_E2 = [
     "sampling of schedules x worlds x scheduler decisions: a clean batch is evidence, not proof",
     "brood-internal code between two harness callbacks is atomic to the scheduler; overlap is judged structurally from the recorded fork/join tree (series-parallel paths), so one run covers all interleavings of its tree",
-    "the schedule catalogue is generated at build time (48 schedules / 171 tasks, plus 12 staged schedules / 66 tasks for C07 C08 C12, plus 32 random ones in the thorough tier) because staging is decided by trait resolution; schedules whose tasks view no resource also run on a world without resources",
+    "the schedule catalogue is generated at build time (48 schedules / 171 tasks; for C07 C08 C12 also 12 staged schedules / 66 tasks, 6 with tasks that have no component views / 21 tasks and 8 with a component viewed through views and entry views next to its writer / 24 tasks; 32 more random ones in the thorough tier) because staging is decided by trait resolution; schedules whose tasks view no resource also run on a world without resources",
     "the simulated join reproduces rayon's contract: both closures run to completion, a's panic wins",
 ]
 
@@ -212,9 +219,9 @@ E2_RULE = ("one evaluation = one simulated execution of run_schedule for one cat
            "scheduler configuration (pool size 1-64, strategy, steal rate, injected root, 1-2 repeats) with every decision drawn from the run seed, "
            "compared with sequential run_system/run_par_system calls on a clone; ")
 PROPERTY_INFO["C07"] = info2("exploration", E2_RULE + "non-trivial = the schedule changed the world and at least one fork was stolen or a task was started early as a run-time add-on; distinct = distinct (schedule, configuration, decision list)",
-                             ["schedule_changed_world"], ["schedule_changed_world", "run_with_steals", "run_time_add_on_started_early", "tasks_interleaved_in_time", "single_thread_pool", "emptied_archetype", "world_without_resources"], "C07")
+                             ["schedule_changed_world"], ["schedule_changed_world", "run_with_steals", "run_time_add_on_started_early", "tasks_interleaved_in_time", "single_thread_pool", "emptied_archetype", "world_without_resources", "crowded_world", "table_of_more_than_1024_rows"], "C07")
 PROPERTY_INFO["C08"] = info2("exploration", E2_RULE + "non-trivial = at least one pair of different tasks reached the same value with a write among them (the pair is then checked for fork/join ordering); distinct = distinct (schedule, configuration, decision list)",
-                             ["conflicting_task_pairs_checked"], ["conflicting_task_pairs_checked", "run_time_add_on_started_early", "tasks_interleaved_in_time"], "C08")
+                             ["conflicting_task_pairs_checked"], ["conflicting_task_pairs_checked", "run_time_add_on_started_early", "tasks_interleaved_in_time", "crowded_world", "table_of_more_than_1024_rows"], "C08")
 PROPERTY_INFO["C12"] = info2("exploration", E2_RULE + "non-trivial = the schedule has a greedy group of two or more independent tasks whose placement was checked, or ran on a single-thread pool; distinct = distinct (schedule, configuration, decision list)",
                              ["independent_pair_parallel", "single_thread_pool"], ["independent_pair_parallel", "single_thread_pool", "empty_world", "world_without_archetypes", "world_without_resources", "schedule_has_parallel_group"], "C12")
 
@@ -223,4 +230,4 @@ PROPERTY_INFO["C09"] = info2("exploration",
     "executed under the simulated scheduler (pool size 1-64 which also sets rayon's split depth, steals and migrated flags by draw, item closures yield) and compared with the sequential query on the same world and with "
     "the sequential counterpart's writes on a clone; non-trivial = the parallel iteration yielded results and was split at least once; distinct = distinct (query, configuration, decision list)",
     ["parallel_iteration_split", "run_with_steals"],
-    ["par_query_nonempty", "parallel_iteration_split", "run_with_steals", "par_optional_view_absent", "archetype_of_length_one", "large_archetype", "emptied_archetype", "empty_world", "value_consumer_split", "short_circuit_consumer", "short_circuit_skipped_items"], "C09")
+    ["par_query_nonempty", "parallel_iteration_split", "run_with_steals", "par_optional_view_absent", "archetype_of_length_one", "large_archetype", "emptied_archetype", "empty_world", "value_consumer_split", "short_circuit_consumer", "short_circuit_skipped_items", "crowded_world", "table_of_more_than_1024_rows"], "C09")
